@@ -5,7 +5,7 @@
 //!
 //! `sigv2` — component level, through `s3s::verif_hooks::{sig_v2, http}`:
 //!   `auth    value`                                                  -> ak sig            (`-` `-` = parse error)
-//!   `presign rawquery`                                               -> ok ak expires sig (`err - - -`)
+//!   `presign rawquery`                                               -> ok ak expires_time(ns) sig (`err - - -`)
 //!   `sts     mode method uripath query? hnames hvalues vh? secret`   -> string_to_sign signature (`tostr-err -`)
 //!
 //! `sigv2e2e` — through `S3Service::call` with `SimpleAuth`, `SingleDomain`, a recording `S3Access` and a
@@ -936,8 +936,10 @@ fn mutations(rng: &mut Rng, b: &Base, unsigned: &GReq, signed: &GReq, expires: &
             ("+4102444800", "any", "expires-plus-sign"),
             ("04102444800", "any", "expires-leading-zero"),
             ("253402300799", "accept", "expires-year-9999"),
-            ("253402300800", "any", "expires-year-10000"),
-            ("9223372036854775808", "any", "expires-i64-overflow"),
+            ("253402300800", "accept", "expires-year-10000"),
+            ("9223372036854775808", "accept", "expires-i64-overflow"),
+            ("99999999999999999999999", "accept", "expires-u64-overflow"),
+            ("99999999999999999999999x", "reject", "expires-overflow-then-garbage"),
             ("-1", "reject", "expires-negative"),
             ("", "reject", "expires-empty"),
             ("41024448e2", "reject", "expires-not-a-number"),
@@ -1152,6 +1154,9 @@ fn gen_component(rng: &mut Rng, n: u64, _tier: &str, emit: &mut dyn FnMut(Vec<St
         "-9223372036854775808",
         "-9223372036854775809",
         "99999999999999999999999",
+        "+99999999999999999999999",
+        "99999999999999999999999x",
+        "9223372036854775808 ",
         "４２",
         "1_000",
     ];
@@ -1297,7 +1302,7 @@ fn eval_component(f: &[&str]) -> Vec<String> {
                 Ok(p) => vec![
                     "ok".to_owned(),
                     hx(p.access_key),
-                    p.expires_time.unix_timestamp().to_string(),
+                    p.expires_time.unix_timestamp_nanos().to_string(),
                     hx(&p.signature),
                 ],
                 Err(_) => vec!["err".to_owned(), "-".to_owned(), "-".to_owned(), "-".to_owned()],
